@@ -657,3 +657,33 @@ def f3_result_fields(ctx, res: Result, ci: ClassInfo, entry: FuncInfo) -> None:
             res.bad("F3-result-computed-by-this-call", inst, fi.site(node), fi.qualname,
                     f"field {f} is read (or tested with hasattr) on a path where this invocation has not assigned it: the result can carry a quantity computed by an earlier call",
                     construct=src(node)[:200])
+
+
+def f7_setters_store_the_object(ctx, res: Result, ci: ClassInfo, rule="F7-no-derived-snapshot") -> int:
+    """A configuration setter stores the object it was given (or a conversion of the whole object),
+    never a value *read from* it: circuits, sources and detectors are mutable and may be edited in
+    place after assignment, so a copy of e.g. `value.heralds` taken at assignment time goes stale."""
+    n = 0
+    for name, f in ci.setters.items():
+        params = f.params()
+        if len(params) < 2:
+            continue
+        pname = params[1]
+        for a in walk_no_nested(f.node):
+            if not isinstance(a, (ast.Assign, ast.AnnAssign)) or a.value is None:
+                continue
+            tgt = a.targets[0] if isinstance(a, ast.Assign) else a.target
+            fld = _self_attr(tgt, ci.name)
+            if not fld:
+                continue
+            n += 1
+            derived = [x for x in ast.walk(a.value) if isinstance(x, (ast.Attribute, ast.Subscript)) and isinstance(getattr(x, "value", None), ast.Name) and x.value.id == pname and isinstance(x.ctx, ast.Load)
+                       and not (isinstance(x, ast.Attribute) and isinstance(ctx.tree.parents(f.rel).get(x), ast.Call) and ctx.tree.parents(f.rel).get(x).func is x and x.attr in ("copy",))]
+            inst = f"{ci.name}.{name}[setter]:{fld}"
+            if derived:
+                res.bad(rule, inst, f.site(a), f.qualname,
+                        f"the setter stores `{src(derived[0])}`, a value read from the assigned object at assignment time; in-place edits of that object afterwards (adding a herald, changing a parameter) are not seen",
+                        construct=src(a)[:160])
+            else:
+                res.ok(rule, inst, f.site(a), f.qualname, "stores the assigned object itself (or a conversion of the whole object)")
+    return n
